@@ -1311,7 +1311,7 @@ def oracle_c08_attrs(seed, thorough):
     return fails, n
 
 
-RT_FAMILY = {"C01": "flat", "C07": "flat7", "C08": "flat", "C02": "enum", "C03": "tree", "C09": "prim", "C17": "wf", "C10": "subst"}
+RT_FAMILY = {"C01": "flat", "C07": "flat7", "C08": "flat", "C02": "enum", "C03": "tree", "C09": "prim", "C17": "wf", "C10": "subst", "C11": "generic", "C04": "generic"}
 
 
 def oracle_rt(prop, seed, thorough):
@@ -1392,16 +1392,21 @@ def run_oracle(prop, cases, results, seed, thorough, disagreements):
             out["evaluated"] = n17 + n17s + out["runtime_tie"]["conversions_compared"]
         elif prop == "C04":
             out["name"] = "impl headers of the real output (parsed with syn 2) vs the documented impl set of the instructions"
-            out["failures"], out["evaluated"] = oracle_c04(cases, seed, thorough)
+            f4, n4 = oracle_c04(cases, seed, thorough)
+            out["failures"] += f4
+            out["evaluated"] = n4 + out["runtime_tie"]["conversions_compared"]
+            out["name"] += " + runtime tie (generic programs, generic error types: rustc must accept the impls, values compared)"
         elif prop == "C20":
             out["name"] = "identifier scan of the real output minus the input's identifiers"
             out["failures"], out["evaluated"] = oracle_c20(cases, seed, thorough)
         elif prop == "C11":
             out["name"] = "real impl headers (syn-parsed): every lifetime used is declared, no parameter declared twice, the type applied in argument form, and the where-clause is the one the instructions designate for that counterpart"
-            out["failures"], out["evaluated"] = oracle_c11(cases, seed, thorough)
+            f11, n11 = oracle_c11(cases, seed, thorough)
+            out["failures"] += f11
             fw, nw = oracle_c11_where(seed, thorough)
             out["failures"] += fw
-            out["evaluated"] += nw
+            out["evaluated"] = n11 + nw + out["runtime_tie"]["conversions_compared"]
+            out["name"] += " + runtime tie (generic programs: lifetimes, type parameters, counterpart-only lifetimes, both turbofish spellings, where-clauses — rustc must accept the impls, values compared)"
         elif prop == "C07":
             out["name"] = "owned vs by-reference bodies of symmetric mappings on the real output + runtime tie (all six flavours of one mapping on equal inputs)"
             f7, n7 = oracle_c07(cases, seed, thorough)
